@@ -58,12 +58,27 @@ theorem sorted_of_adjacent_class (es : List Entry)
 — `BBusyState` set or clear (set = the leftover of a loader that died between taking the flag and its deferred
 release; the flag lives in SysV memory and survives the process), any stale records — the cache afterwards holds the
 records of `.BRD`, both orders are rebuilt from them, and the flag is released. -/
-theorem reload_loads_whatever_the_flag (s : LoadState) (file : List Board) :
-    reloadBCache s file = { busy := false, boards := file, sorted := true } := rfl
+theorem reload_loads_whatever_the_flag (maxBoard : Nat) (s : LoadState) (file : List Board) :
+    reloadBCache maxBoard s file = { busy := false, boards := file.take maxBoard, sorted := true } := rfl
+
+/-- a `.BRD` of ANY length: the number of boards the lookups and sorts run over never exceeds MAX_BOARD (the size of
+`BCache`/`BSorted`), the loaded records are the first MAX_BOARD of the file, and a file that fits is loaded whole. -/
+theorem reload_clamps_to_table (maxBoard : Nat) (s : LoadState) (file : List Board) :
+    (reloadBCache maxBoard s file).boards.length ≤ maxBoard ∧
+      (reloadBCache maxBoard s file).boards = file.take maxBoard ∧
+      (file.length ≤ maxBoard → (reloadBCache maxBoard s file).boards = file) := by
+  refine ⟨by simp [reloadBCache]; omega, rfl, fun h => by simp [reloadBCache, List.take_of_length_le h]⟩
+
+/-- without the clamp (seeded change C11-r7-2) 103 records give BNumber 103 over a 100-slot table. -/
+theorem reload_unclamped_witness : ¬ ((List.replicate 103 (default : Board)).length ≤ 100) ∧
+    (reloadBCache 100 ⟨false, [], false⟩ (List.replicate 103 default)).boards.length = 100 := by
+  constructor
+  · simp
+  · simp [reloadBCache]
 
 /-- the rule "still busy after the wait ⇒ give up" (seeded change C11-r6-1) leaves a restarted daemon without a
 board table for ever: the flag is never released, nothing is loaded, nothing is sorted. -/
-def reloadGiveUp (s : LoadState) (file : List Board) : LoadState := if s.busy then s else reloadBCache s file
+def reloadGiveUp (s : LoadState) (file : List Board) : LoadState := if s.busy then s else reloadBCache 100 s file
 
 theorem reload_give_up_witness (file : List Board) :
     reloadGiveUp { busy := true, boards := [], sorted := false } file = { busy := true, boards := [], sorted := false } ∧
